@@ -96,7 +96,7 @@ func DefaultKnobs() Knobs {
 	return Knobs{
 		MinOps: 3, MaxOps: 22, MaxScopes: 5, MaxDepth: 3, MaxParams: 4, MaxResults: 3,
 		Types:  []string{"T0", "T1", "T2", "T3", "T4", "T5", "S0"},
-		Ifaces: []string{"I0", "I1", "I2"},
+		Ifaces: []string{"I0", "I1", "I2", "I01"},
 		Names:  []string{"a", "b"},
 		Groups: []string{"g", "h"},
 		WScope: 3, WProvide: 10, WDecorate: 3, WInvoke: 7, WVisualize: 0, WString: 0,
@@ -663,7 +663,7 @@ func (g *gen) genProvide(s int) Op {
 	if useAs {
 		// As needs a concrete result implementing interfaces
 		l := &rl[0]
-		if isIface(l.key.T) || len(IfacesOf[l.key.T]) == 0 || l.flatten {
+		if (isIface(l.key.T) && l.key.T != "I01") || len(IfacesOf[l.key.T]) == 0 || l.flatten {
 			useAs = false
 		} else {
 			ifs := IfacesOf[l.key.T]
